@@ -51,10 +51,11 @@ def nblk (size blk : Nat) : Nat := if blk = 0 then 0 else ceilDiv size blk
 def slicesDepth (b : BlockOp) : Bool := b.kind == .conv || (b.kind == .pool && b.subOp = 2)
 
 /-- Depth of one IFM slice, as the SHRAM input-buffer layout requires it: 16-bit elements 16 channels
-    (rounded to 4), otherwise 32 channels — 16 with part-kernel-first traversal — rounded to the 8-deep micro
+    (rounded to 4), 32-bit elements 8 channels, otherwise 32 channels — 16 with part-kernel-first traversal — rounded to the 8-deep micro
     block.  (Taking the *smaller* plausible slice can only weaken what `checkPair` demands.) -/
 def ifmSliceDepth (b : BlockOp) : Nat :=
   if b.ifm.elemBytes = 2 then ceilDiv (min b.ifm.depth 16) 4 * 4
+  else if b.ifm.elemBytes = 4 then ceilDiv (min b.ifm.depth 8) 8 * 8
   else ceilDiv (min b.ifm.depth (if b.partKernelFirst then 16 else 32)) 8 * 8
 
 def isConv (b : BlockOp) : Bool := slicesDepth b
